@@ -5,8 +5,26 @@ CLAIMS = {
      design_ref="§5 C18", engine="retryopts",
      note="Trusted: Coq kernel, the hand-written model of src/runner/basic.rs:142-195,762-766 (validated, not verified), the harness and orchestrator; humantime::parse_duration is an oracle; K18a (prefix-only tags such as @retrying) excluded by hypothesis and reported as KNOWN-FINDING.",
      technique="Coq theorem (model = spec) + differential correspondence check of model vs code"),
+ "C15": dict(
+     text="Full: the Gallina model of the filter built in Cucumber::filter_run is proved to keep exactly the scenarios accepted by (--name regex, else --tags over feature+rule+scenario tags, else the closure), in original order, with rules/background/tags intact, and tag expressions are proved to be ordinary boolean formulas over tag membership; tied to the code by driving the real filter_run with a vector parser and a recording Runner.",
+     design_ref="§5 C15", engine="filter",
+     note="Trusted: Coq kernel, hand-written model of src/cucumber.rs:704-776 and src/tag.rs (validated by the differential check), harness, orchestrator. Regex::is_match is an oracle; TagOperation trees are built directly (the gherkin tag-expression text parser is not exercised).",
+     technique="Coq theorems about the model + differential correspondence check"),
+ "C16": dict(
+     text="Full for the expansion algorithm, positions under a stated layout hypothesis: the Gallina model of expand_examples (incl. a one-pass scanner proved to be THE leftmost non-overlapping scan for <name>, verbatim substitution, first-error semantics, row order, tag order, positions) is tied to the code on hand-built features, on scanner probes that expose the real TEMPLATE_REGEX tokenisation, and on generated .feature texts run through the real gherkin parser.",
+     design_ref="§5 C16", engine="outline",
+     note="Trusted: Coq kernel, hand-written model of src/feature.rs:55-170 with the Unicode White_Space table written out, harness, orchestrator. Distinctness of positions is proved under the hypothesis that Examples tables are laid out one after another (a fact about the third-party gherkin parser, validated on the parsed stream).",
+     technique="Coq theorems about the model + differential correspondence check"),
+ "C17": dict(
+     text="Full: the Gallina model of step::Collection (insert-or-replace per (keyword, regex text, location)) and find is proved keyword-scoped, exact about none/unique/ambiguous, to list all candidates sorted by the total order on (regex text, Option<Location>), and to be independent of HashMap iteration order and of registration order (for pairwise distinct keys); tied to the code by differential testing under two registration orders and fresh RandomStates.",
+     design_ref="§5 C17", engine="stepmatch",
+     note="Trusted: Coq kernel, hand-written model of src/step.rs:101-212 (validated by the differential check), harness, orchestrator. The regex engine (captures, capture_names) is an oracle whose observed answers are handed to the model.",
+     technique="Coq theorems about the model + differential correspondence check"),
 }
 ENGINES = {
+ "filter": ("/verif/harness/src/engines/filter.rs", "differential correspondence: real Cucumber::filter_run (vector parser, recording Runner) vs Gallina model"),
+ "outline": ("/verif/harness/src/engines/outline.rs", "differential correspondence: real Feature::expand_examples (hand-built, scanner probes, parsed texts) vs Gallina model"),
+ "stepmatch": ("/verif/harness/src/engines/stepmatch.rs", "differential correspondence: real step::Collection::find under two registration orders vs Gallina model"),
  "retryopts": ("/verif/harness/src/engines/retryopts.rs", "differential correspondence: real parse_from_tags / Basic::run vs Gallina model evaluated by vm_compute"),
 }
 HOOK_COMMITS = []
